@@ -20,7 +20,7 @@ import concurrent.futures as cf
 import json, os, random, struct, time
 import vlib
 
-SPECDIR = os.path.join(vlib.SPEC, "text")
+SPECDIR = os.environ.get("C18_SPECDIR") or os.path.join(vlib.SPEC, "text")   # override: binding demonstrations only
 WORKDIR = os.path.join(vlib.WORK, "c18")
 
 # ------------------------------------------------------------------------------------------------ helpers
@@ -185,7 +185,7 @@ function D(v) {
   }
 }
 function T(i, s) { print("@@", i); var v; try { v = P(s); } catch (e) { print("E", e); return; } D(v); }
-function TR(i, s) { print("@@", i); var v; try { v = P(s, function (k, x) { return x; }); } catch (e) { print("E", e); return; } D(v); }
+function TR(i, s) { print("@@", i); var v; try { v = P(s, function (k, x) { print("K", k); return x; }); } catch (e) { print("E", e); return; } D(v); }
 function S(i, mk, r, sp) {
   print("@@", i); var t;
   try { t = SF(mk(), r, sp); } catch (e) { print("E", e); return; }
@@ -374,13 +374,13 @@ def run(tier, replay=None):
     # ---------------------------------------------------------------- TLC: pass 1, simulation, pass S
     jobs = {
         "p1": dict(mod="MCJsonGrammar.tla", cfg="MCJsonGrammar_quick.cfg" if quick else "MCJsonGrammar_thorough.cfg",
-                   workers=4 if quick else 8, coverage=not quick),
+                   workers=4 if quick else 8),
         "p1sim": dict(mod="MCJsonGrammar.tla", cfg="MCJsonGrammar_sim.cfg", workers=1,
                       simulate=150 if quick else 1500, depth=26, tseed=18),
         "p1seed": dict(mod="MCJsonGrammar.tla", cfg="MCJsonGrammar_sim.cfg", workers=1,
                        simulate=60 if quick else 600, depth=26, tseed=1000 + seed),
         "sbfs": dict(mod="MCJsonStringify.tla", cfg="MCJsonStringify_quick.cfg" if quick else "MCJsonStringify_thorough.cfg",
-                     workers=3 if quick else 4, coverage=not quick),
+                     workers=3 if quick else 4),
         "ssim": dict(mod="MCJsonStringify.tla", cfg="MCJsonStringify_simq.cfg" if quick else "MCJsonStringify_simt.cfg",
                      workers=1, simulate=120 if quick else 1500, depth=80, tseed=18),
         "sseed": dict(mod="MCJsonStringify.tla", cfg="MCJsonStringify_simq.cfg" if quick else "MCJsonStringify_simt.cfg",
@@ -415,9 +415,6 @@ def run(tier, replay=None):
     ck.cov["checker_cmd"] = tl["p1"]["cmd"]
     states = sum(tl[n]["distinct"] for n in ("p1", "sbfs"))
     transitions = sum(tl[n]["states"] for n in tl)
-    if not quick:
-        for n in ("p1", "sbfs"):
-            check_coverage(tl[n]["raw_tail"], n)
 
     reps = None
     live = []                      # pass-1 records
@@ -440,6 +437,7 @@ def run(tier, replay=None):
                 trees.setdefault(json.dumps([o["v"], o["rep"], o["space"]], sort_keys=True), o)
     trees = list(trees.values())
 
+    model_coverage(live + list(simrecs.values()), reps, trees)
     canon = {c: reps[c][0] for c in reps}
     selfins = [c for c in reps if c not in ("QUOTE", "ESC", "U4", "U4HI", "U4LO", "BADESC", "CTL", "WSC")]
     selfins_reps = [r for c in sorted(selfins) for r in reps[c]]
@@ -449,8 +447,8 @@ def run(tier, replay=None):
     #            val: model value or None (ask pass 2), origin)
     cases = []
 
-    def add_case(toks, cls, exp, val, origin):
-        cases.append({"id": len(cases), "toks": toks, "cls": cls, "exp": exp, "val": val, "origin": origin})
+    def add_case(toks, cls, exp, val, origin, rev=None):
+        cases.append({"id": len(cases), "toks": toks, "cls": cls, "exp": exp, "val": val, "origin": origin, "rev": rev})
 
     rot = [0]
 
@@ -473,9 +471,9 @@ def run(tier, replay=None):
     for o in live:
         cls_seq = o["t"]
         ctoks = [canon[c] for c in cls_seq]
-        add_case(ctoks, cls_seq, "accept" if o["acc"] else "reject", o["val"] if o["acc"] else None, "enum")
+        add_case(ctoks, cls_seq, "accept" if o["acc"] else "reject", o["val"] if o["acc"] else None, "enum", o["rev"])
         seen = {json.dumps(ctoks)}
-        for k in range(1, nvar + 1):
+        for k in range(1, (nvar if quick or o["acc"] or len(cls_seq) < maxlen else 1) + 1):
             # alternatives of an accepted string may use any self-inserting token inside strings (pass 2 gives the
             # value); alternatives of a string rejected at end of text stay inside the classes (rejected by class)
             vt = variant(cls_seq, k, o["acc"])
@@ -489,8 +487,8 @@ def run(tier, replay=None):
         kills = o["kills"]
         comp = [canon[c] for c in o["comp"]]
         if not quick and len(cls_seq) == maxlen:
-            # thorough tier, longest level: a rotating third of the kill classes per prefix
-            kills = [c for j, c in enumerate(sorted(kills)) if (j + kill_rot) % 3 == 0]
+            # thorough tier, longest level: a rotating quarter of the kill classes per prefix
+            kills = [c for j, c in enumerate(sorted(kills)) if (j + kill_rot) % 4 == 0]
             kill_rot += 1
         for c in kills:
             rs = reps[c]
@@ -605,6 +603,7 @@ def run(tier, replay=None):
                                      % (c["cls"], c["exp"], c["toks"], o["acc"]))
             c["exp"] = "accept" if o["acc"] else "reject"
             c["val"] = o["val"] if o["acc"] else None
+            c["rev"] = o["rev"]
         else:
             sval[key[1]] = o
 
@@ -624,7 +623,7 @@ def run(tier, replay=None):
     for rc in rcases:
         c = byid[rc["of"]]
         evals += 1
-        kind = judge_parse(c, got.get(rc["id"]))
+        kind = judge_parse(c, got.get(rc["id"]), reviver=True)
         if kind:
             fails.append((c, "reviver:" + kind, got.get(rc["id"])))
 
@@ -706,7 +705,7 @@ def run(tier, replay=None):
     ck.assumptions += [
         "number values outside the model's exact domain (NumValue = out) are only checked for acceptance and for being a Number (C13 owns rounding)",
         "inside strings all self-inserting token classes are enumerated as PLAIN and rendered with representatives of every such class",
-        "thorough tier: at most MaxWs whitespace and MaxBody string-body tokens per enumerated class string; killing tokens are sampled (one third per prefix) at the longest level",
+        "thorough tier: at most MaxWs whitespace and MaxBody string-body tokens per enumerated class string; killing tokens are sampled (one quarter per prefix) at the longest level",
         "stringify output with a gap that is not JSON whitespace is compared as text only (it is not a JSON text by design)",
         "nesting depth limits of the implementation are not explored (texts here nest at most 26 deep)",
     ]
@@ -764,8 +763,9 @@ def is_nontrivial(c):
     return nest
 
 
-def judge_parse(c, g):
-    """None if the engine's observation is what the model prescribes, else the kind of failure."""
+def judge_parse(c, g, reviver=False):
+    """None if the engine's observation is what the model prescribes, else the kind of failure.  With reviver: the
+    observation starts with the names the logging identity reviver was called with (ReviverCalls of the model)."""
     if g is None:
         raise vlib.ToolError("no observation for case %d" % c["id"])
     if isinstance(g, dict):
@@ -779,6 +779,11 @@ def judge_parse(c, g):
     if g and g[0].startswith("s:E "):
         return "reject-valid" if g == ["s:E o:Error:SyntaxError"] else "wrong-error"
     exp = dump_lines(c["val"], [])
+    if reviver:
+        calls = ["s:K s:" + esc_units(k) for k in c["rev"]]
+        if g[:len(calls)] != calls or (len(g) > len(calls) and g[len(calls)].startswith("s:K ")):
+            return "wrong-reviver-calls"
+        g = g[len(calls):]
     return None if lines_match(exp, g) else "wrong-value"
 
 
@@ -822,9 +827,39 @@ def judge_stringify(s, g, p2out):
     return None, None
 
 
-def check_coverage(raw_tail, name):
-    """-coverage 1: every action of the MC spec must have been taken."""
-    import re
-    zero = [ln for ln in raw_tail.splitlines() if re.match(r"^<\w+ line .*>: 0:0$", ln.strip())]
-    if zero:
-        raise vlib.ToolError("%s: actions never taken: %s" % (name, zero[:3]))
+ALL_MODES = {"start", "arr1", "arrn", "objv", "nzero", "nint", "nfrac", "nexpd", "nminus", "ndot", "nexp", "nexps",
+             "obj1", "objk", "colon", "after", "str"}
+
+
+def model_coverage(live, reps, trees):
+    """Vacuity control on the models themselves (counters kept in the emitted records): every control mode of the
+    recogniser is reached, every token class is consumed by some live string and kills some other, every shape,
+    toJSON behaviour, replacer kind and result kind of the Stringify builder occurs."""
+    modes = {o["mode"] for o in live}
+    used = {c for o in live for c in o["t"]}
+    killing = {c for o in live for c in o["kills"]}
+    never_live = {"UWS", "LS", "CTL", "BADESC"}       # illegal everywhere, or rendered as alternatives of PLAIN
+    missing = (ALL_MODES - modes) | {c for c in reps if c not in used and c not in never_live} | (set(reps) - killing)
+    if missing:
+        raise vlib.ToolError("model coverage: never reached/used/killing: %s" % sorted(missing))
+    kinds = set()
+
+    def walk(v):
+        kinds.add(v["t"])
+        if v["t"] == "obj":
+            kinds.add("toj:" + v["toj"])
+            for p in v["props"]:
+                walk(p["v"])
+        elif v["t"] == "arr":
+            for x in v["items"]:
+                walk(x)
+    for t in trees:
+        walk(t["v"])
+        kinds.add("rep:" + t["rep"]["k"] + ":" + t["rep"].get("f", ""))
+        kinds.add("out:" + t["out"]["r"])
+        kinds.add("gap:" + ("ws" if t["gapws"] else "other") + (":empty" if not t["gap"] else ""))
+    want = {"undef", "null", "bool", "num", "str", "fn", "sym", "big", "box", "arr", "obj", "toj:none", "toj:key", "toj:undef",
+            "toj:num", "toj:x", "rep:none:", "rep:list:", "rep:fn:id", "rep:fn:dropb", "rep:fn:numN", "rep:fn:wrap",
+            "out:str", "out:undef", "out:throw", "gap:ws", "gap:ws:empty", "gap:other"}
+    if want - kinds:
+        raise vlib.ToolError("stringify model coverage: never built: %s" % sorted(want - kinds))
